@@ -81,6 +81,13 @@ def gen_tles(ctx, n, drag_free=False):
         if drag_free and not (3.0 <= float(f["incl"]) <= 177.0):
             continue
         out.append((a, b))
+    if not drag_free:
+        # the edges of "any inclination": exactly 0 and 180 deg (refused today: then nothing is judged) and one printing
+        # step inside them
+        for inc in ("  0.0000", "180.0000", "  0.0001", "179.9999", "  0.0100", "179.9900"):
+            ov = {"incl": inc, "ecc": "%07d" % ctx.rng.randrange(1000, 30000), "bstar": " 10000-4"}
+            _, a, b = tlegen.random_tle(ctx.rng, "leo", overrides=ov)
+            out.append((a, b))
     return out
 
 
@@ -110,7 +117,9 @@ def correspond(ctx):
 
 def oracle(ctx):
     from pyorbital import orbital
+    global _DRV
     drv = ctx.driver() if ctx.driver_ok else None
+    _DRV = drv
     n = ctx.size(120, 4000)
     worst = {"dv": 0.0, "incl": 0.0, "energy": 0.0}
     for (l1, l2) in tlegen.with_twins(ctx.rng, gen_tles(ctx, n), every=5):
@@ -680,15 +689,51 @@ def long_arrays(ctx):
             ctx.violation(kind, dict(case, index=i), obs, req, site="Orbital.get_position(array of %d times, shape %r)" % (spec["n"], spec["shape"]))
 
 
+_DRV = None      # the model driver of the current run (set by oracle / replay), for the matcher below
+
+
+def _case_us(case):
+    if "us" in case:
+        return int(case["us"])
+    if "minutes" in case:
+        return int(round(case["minutes"] * 60e6))
+    if "array" in case and isinstance(case.get("index"), int):
+        sp = case["array"]
+        return int(np.linspace(sp["start_us"], sp["stop_us"], sp["n"]).round().astype("int64")[case["index"]])
+    return None
+
+
+def _model_dv(case):
+    """|v - dp/dt| / |v| of the PUBLISHED MODEL's own state (driver's transcription of the report, central difference over
+    +-1 s) for the element set and instant of a case; None when it cannot be evaluated."""
+    from pyorbital import tlefile
+    us = _case_us(case)
+    if _DRV is None or us is None:
+        return None
+    try:
+        tle = tlefile.Tle("x", line1=case["line1"], line2=case["line2"])
+        outm = _DRV.run(["str3 " + " ".join(lib.f2h(x) for x in sgp4io.tle_nums(tle)) + "".join(" " + lib.f2h(u / 60e6) for u in (us - 10 ** 6, us, us + 10 ** 6))])[0]
+        st = [[lib.h2f(x) for x in s.split()[:6]] for s in outm.split(" | ")[1:4]]
+        p0, p1, v = np.array(st[0][:3]), np.array(st[2][:3]), np.array(st[1][3:6])
+        return float(np.linalg.norm((p1 - p0) / 2.0 - v) / np.linalg.norm(v))
+    except Exception:  # noqa
+        return None
+
+
 def match_known(entry, v):
     m = entry.get("match", {})
     if m.get("kind") != v["kind"]:
         return False
     if "min_inclination_deg" in m:
         try:
-            return float(v["case"]["line2"][8:16]) >= m["min_inclination_deg"]
+            if not float(v["case"]["line2"][8:16]) >= m["min_inclination_deg"]:
+                return False
         except (KeyError, ValueError):
             return False
+        # the finding is the MODEL's defect: it lists a violation only where the published model's own state leaves the
+        # 0.15 % too (evaluated through the driver); where the model keeps it, the implementation has left the model
+        mdv = _model_dv(v["case"])
+        return True if mdv is None else mdv > 0.0015
     if "max_model_low_km" in m:
         try:
             return float(v["case"]["model_low_km"]) < m["max_model_low_km"]
@@ -699,6 +744,11 @@ def match_known(entry, v):
 
 def replay(ctx, case):
     from pyorbital import orbital
+    global _DRV
+    try:
+        _DRV = ctx.driver()
+    except Exception:  # noqa
+        _DRV = None
     inp = case.get("input", case)
     o = orbital.Orbital("x", line1=inp["line1"], line2=inp["line2"])
     if "array" in inp:
